@@ -46,6 +46,10 @@
    even between compilers.  Your mileage may vary.
 */
 #define HUFF_START_WIDTH 10
+#if defined(KJN_LBZIP2_VERIF) && defined(VERIF_HUFF_START_WIDTH)
+# undef HUFF_START_WIDTH
+# define HUFF_START_WIDTH VERIF_HUFF_START_WIDTH
+#endif
 
 
 /* Notes on prefix code decoding:
@@ -596,6 +600,7 @@ retrieve(struct decoder_state *restrict ds, struct bitstream *bs)
         NEED(S_DELTA_TAG);
       }
 
+      VERIF_POINT(DELTA_DONE, rs);
       make_tree(rs);
     }
 
@@ -625,6 +630,8 @@ retrieve(struct decoder_state *restrict ds, struct bitstream *bs)
        from 0 to 5.  A selector of 6 or 7 means oversubscribed or incomplete
        codebook.  If such selector is encountered, decoding is aborted.
     */
+
+    VERIF_POINT(HEADER_DONE, rs);
 
     /* Bound selectors at 18001. */
     if (rs->num_selectors > 18001)
